@@ -197,5 +197,5 @@ def _gcmp(ctx, key, what, got, ref, rtol, floor=0.0):
     err = dn.fro(got.to(torch.float64) - ref)
     scale = max(dn.fro(ref), 1e-30)
     ctx.metric('grad_rel_err', err / scale)
-    if err > rtol * scale + 1e-12 + floor:
+    if not err <= rtol * scale + 1e-12 + floor:        # NaN-safe
         ctx.viol(key + '/clause=grad-value', '%s: ||g-gref||=%.3e, ||gref||=%.3e' % (what, err, scale))
